@@ -451,6 +451,7 @@ pub fn sc_nonce(idx: u64, seed: u64, _t: bool) -> RunOut {
             tr_setrecv: 60,
             tr_nonce_explicit: 100,
             tr_shortbuf: 50,
+            tr_oversize: 40,
             tr_shortout: 50,
             tr_mutate: 50,
             tr_garbage: 30,
@@ -815,6 +816,152 @@ pub fn sc_boot_runtime(idx: u64, seed: u64, _t: bool) -> RunOut {
     })
 }
 
+// ------------------------------------------------------- systematic (index-decoded) scenarios
+
+fn run_custom(idx: u64, seed: u64, scenario: &str, opts: &CfgOpts, drive: impl FnOnce(&mut Driver)) -> RunOut {
+    let mut rng = gen_rng(seed);
+    let cfg = gen_cfg(&mut rng, idx, scenario, opts);
+    let mut w = World::new(cfg.clone());
+    let ops = {
+        let mut d = Driver::new(&mut w, &mut rng);
+        drive(&mut d);
+        d.ops
+    };
+    finish_run(idx, seed, cfg, ops, w, "plain")
+}
+
+/// C05: every delivery sequence of length 4 over {m0, m1, m2, garbage, set_receiving_nonce(1)}
+/// of three messages of one sender, for 3 ciphers x 2 backends x 2 directions (7500 runs = the
+/// complete space; indices beyond wrap around).
+pub fn sc_sched_enum(idx: u64, seed: u64, _t: bool) -> RunOut {
+    let i = idx % 7500;
+    let cipher = ["ChaChaPoly", "AESGCM", "XChaChaPoly"][(i % 3) as usize];
+    let backend = [Backend::Default, Backend::RingFirst][((i / 3) % 2) as usize];
+    let dir = ((i / 6) % 2) as usize;
+    let mut code = i / 12;
+    let opts = CfgOpts { force_name: Some(format!("Noise_NN_25519_{cipher}_SHA256")), force_backend: Some(backend), ..CfgOpts::default() };
+    run_custom(idx, seed, "sched-enum", &opts, |d| {
+        let honest = Profile::default();
+        if !d.handshake(0, &honest) {
+            return;
+        }
+        d.step(Op::Convert { node: 0, stateless: false });
+        d.step(Op::Convert { node: 1, stateless: false });
+        let (snd, rcv) = (dir as u8, 1 - dir as u8);
+        let base = d.w.nodes[snd as usize].written.len() as u16;
+        for k in 0..3u32 {
+            d.step(Op::Write { node: snd, plen: 5 + k, pseed: 77 + k, buf: Buf::Ample, nonce: NonceSel::Auto });
+        }
+        for _ in 0..4 {
+            let sym = code % 5;
+            code /= 5;
+            let op = match sym {
+                0..=2 => Op::Read { node: rcv, src: Src::Hist { from: snd, idx: base + sym as u16 }, mutation: Mutation::None, out: Buf::Ample, nonce: NonceSel::Auto },
+                3 => Op::Read { node: rcv, src: Src::Garbage { len: 32, seed: 9 }, mutation: Mutation::None, out: Buf::Ample, nonce: NonceSel::Auto },
+                _ => Op::SetRecvNonce { node: rcv, v: 1 },
+            };
+            d.step(op);
+        }
+        d.epilogue(0);
+    })
+}
+
+const CALL_ENUM_NAMES: [&str; 6] = [
+    "Noise_N_25519_ChaChaPoly_SHA256",
+    "Noise_NN_25519_AESGCM_SHA256",
+    "Noise_XX_25519_ChaChaPoly_BLAKE2s",
+    "Noise_NNpsk0_25519_ChaChaPoly_SHA256",
+    "Noise_X1X1_25519_ChaChaPoly_SHA512",
+    "Noise_K_25519_AESGCM_SHA256",
+];
+
+/// C11: every sequence of `depth` calls over {write by I, write by R, read-next by I, read-next by
+/// R, read-garbage by I, read-garbage by R}, for six patterns (1-4 messages, one-way/interactive,
+/// psk), followed by conversion of both sides (stateful/stateless alternating) and one transport
+/// call in each direction. depth 4 (quick) / 6 (thorough): 6^depth x 6 runs = the complete space.
+pub fn sc_call_enum(idx: u64, seed: u64, thorough: bool) -> RunOut {
+    let depth = if thorough { 6 } else { 4 };
+    let space = 6u64.pow(depth) * 6;
+    let i = idx % space;
+    let name = CALL_ENUM_NAMES[(i % 6) as usize];
+    let mut code = i / 6;
+    let opts = CfgOpts { force_name: Some(name.to_string()), ..CfgOpts::default() };
+    run_custom(idx, seed, "call-enum", &opts, |d| {
+        for k in 0..depth {
+            let sym = code % 6;
+            code /= 6;
+            let node = (sym % 2) as u8;
+            let op = match sym / 2 {
+                0 => Op::Write { node, plen: 3 + k, pseed: 100 + k, buf: Buf::Ample, nonce: NonceSel::Auto },
+                1 => {
+                    if d.w.inbox[node as usize].is_empty() {
+                        // nothing in flight: present the peer's latest message again (or nothing)
+                        Op::Read { node, src: Src::Hist { from: 1 - node, idx: d.w.nodes[(1 - node) as usize].written.len().saturating_sub(1) as u16 }, mutation: Mutation::None, out: Buf::Ample, nonce: NonceSel::Auto }
+                    } else {
+                        Op::Read { node, src: Src::Next, mutation: Mutation::None, out: Buf::Ample, nonce: NonceSel::Auto }
+                    }
+                },
+                _ => Op::Read { node, src: Src::Garbage { len: 48, seed: k }, mutation: Mutation::None, out: Buf::Ample, nonce: NonceSel::Auto },
+            };
+            d.step(op);
+        }
+        let sl = i % 2 == 0;
+        d.step(Op::Convert { node: 0, stateless: sl });
+        d.step(Op::Convert { node: 1, stateless: !sl });
+        for node in [0u8, 1] {
+            d.step(Op::Write { node, plen: 4, pseed: 5, buf: Buf::Ample, nonce: NonceSel::Auto });
+            d.step(Op::Read { node: 1 - node, src: Src::Next, mutation: Mutation::None, out: Buf::Ample, nonce: NonceSel::Auto });
+        }
+    })
+}
+
+/// C14: for every pattern x DH x message index x payload in {max-1, max, max+1, max+16, max+17} x
+/// buffer in {needed-1, needed, needed+15, needed+16, 65535, 65551, 70000}: the boundary write,
+/// then (if it had to fail) the same message with a small payload, then its delivery.
+pub fn sc_framing_boundary(idx: u64, seed: u64, _t: bool) -> RunOut {
+    let space = 38 * 2 * 4 * 5 * 7;
+    let i = idx % space;
+    let pat = crate::refnoise::pattern_names()[(i % 38) as usize];
+    let dh = ["25519", "P256"][((i / 38) % 2) as usize];
+    let target = ((i / 76) % 4) as usize;
+    let pl_choice = (i / 304) % 5;
+    let buf_choice = (i / 1520) % 7;
+    let (cipher, hash) = [("ChaChaPoly", "SHA256"), ("AESGCM", "SHA512"), ("XChaChaPoly", "BLAKE2s"), ("ChaChaPoly", "BLAKE2b")][(idx / space % 4) as usize];
+    let mods = if (i / 76) % 3 == 2 { "psk0" } else { "" };
+    let opts = CfgOpts { force_name: Some(format!("Noise_{pat}{mods}_{dh}_{cipher}_{hash}")), ..CfgOpts::default() };
+    run_custom(idx, seed, "framing-boundary", &opts, |d| {
+        let nmsg = d.w.nodes[0].shadow.as_ref().map_or(0, |s| s.proto.n_messages());
+        if nmsg == 0 {
+            return;
+        }
+        let target = target % nmsg;
+        for m in 0..nmsg {
+            let (wr, rd) = if m % 2 == 0 { (0u8, 1u8) } else { (1, 0) };
+            if m == target {
+                let overhead = d.w.nodes[wr as usize].shadow.as_ref().map_or(0, |s| s.overhead());
+                let max = 65_535 - overhead as i64;
+                let plen = (max + [-1i64, 0, 1, 16, 17][pl_choice as usize]).max(0) as u32;
+                let buf = [Buf::Delta(-1), Buf::Exact, Buf::Delta(15), Buf::Delta(16), Buf::Abs(65_535), Buf::Abs(65_551), Buf::Abs(70_000)][buf_choice as usize];
+                d.step(Op::Write { node: wr, plen, pseed: 31, buf, nonce: NonceSel::Auto });
+            }
+            if d.w.inbox[rd as usize].is_empty() {
+                d.step(Op::Write { node: wr, plen: 7, pseed: 32, buf: Buf::Ample, nonce: NonceSel::Auto });
+            }
+            let out = if m == target { Buf::Exact } else { Buf::Ample };
+            d.step(Op::Read { node: rd, src: Src::Next, mutation: Mutation::None, out, nonce: NonceSel::Auto });
+        }
+        // the same boundary in transport mode, both state types
+        d.step(Op::Convert { node: 0, stateless: i % 2 == 0 });
+        d.step(Op::Convert { node: 1, stateless: i % 4 < 2 });
+        let plen = (65_535 - 16 + [-1i64, 0, 1, 16, 17][pl_choice as usize]) as u32;
+        let buf = [Buf::Delta(-1), Buf::Exact, Buf::Delta(15), Buf::Delta(16), Buf::Abs(65_535), Buf::Abs(65_551), Buf::Abs(70_000)][buf_choice as usize];
+        d.step(Op::Write { node: 0, plen, pseed: 33, buf, nonce: NonceSel::Auto });
+        if !d.w.inbox[1].is_empty() {
+            d.step(Op::Read { node: 1, src: Src::Next, mutation: Mutation::None, out: Buf::Exact, nonce: NonceSel::Auto });
+        }
+    })
+}
+
 pub struct Scen {
     pub name: &'static str,
     pub f: ScenarioFn,
@@ -844,15 +991,15 @@ pub fn check_table() -> Vec<Check> {
         Check { id: "C02", level: "exploration", rule: RULE, enumerations: vec![], scens: vec![scen!("honest", sc_honest, 24_000, 600_000, 0x201), scen!("interop", sc_interop, 8_000, 200_000, 0x202), scen!("fail-retry", sc_fail_retry_ledger, 6_000, 100_000, 0x203)] },
         Check { id: "C03", level: "exploration", rule: RULE, enumerations: vec![], scens: vec![scen!("tamper-hs", sc_tamper_hs, 30_000, 800_000, 0x301), scen!("chaos", sc_chaos, 4_000, 100_000, 0x302)] },
         Check { id: "C04", level: "exploration", rule: RULE, enumerations: vec![], scens: vec![scen!("transport-auth", sc_transport_auth, 20_000, 500_000, 0x401), scen!("stateless", sc_stateless, 6_000, 100_000, 0x402)] },
-        Check { id: "C05", level: "exploration", rule: RULE, enumerations: vec![], scens: vec![scen!("transport-sched", sc_transport_sched, 24_000, 600_000, 0x501), scen!("nonce", sc_nonce, 4_000, 100_000, 0x502)] },
+        Check { id: "C05", level: "exploration", rule: RULE, enumerations: vec![], scens: vec![scen!("transport-sched", sc_transport_sched, 24_000, 600_000, 0x501), scen!("nonce", sc_nonce, 4_000, 100_000, 0x502), scen!("sched-enum", sc_sched_enum, 7_500, 7_500, 0x503)] },
         Check { id: "C06", level: "exploration", rule: RULE, enumerations: vec![], scens: vec![scen!("fail-retry-ledger", sc_fail_retry_ledger, 24_000, 600_000, 0x601), scen!("chaos", sc_chaos, 6_000, 100_000, 0x602), scen!("nonce", sc_nonce, 6_000, 100_000, 0x603)] },
         Check { id: "C07", level: "exploration", rule: RULE, enumerations: vec![], scens: vec![scen!("fail-retry-control", sc_fail_retry_control, 20_000, 500_000, 0x701), scen!("transport-sched", sc_transport_sched, 4_000, 100_000, 0x702)] },
         Check { id: "C08", level: "exploration", rule: RULE, enumerations: vec![], scens: vec![scen!("mismatch", sc_mismatch, 24_000, 600_000, 0x801), scen!("mismatch-cross", sc_mismatch_cross, 8_000, 200_000, 0x802)] },
         Check { id: "C09", level: "exploration", rule: RULE, enumerations: vec![], scens: vec![scen!("nonce", sc_nonce, 24_000, 600_000, 0x901), scen!("stateless", sc_stateless, 4_000, 100_000, 0x902)] },
         Check { id: "C10", level: "exploration", rule: RULE, enumerations: vec!["names"], scens: vec![scen!("chaos", sc_chaos, 16_000, 500_000, 0xA01), scen!("chaos-keys", sc_chaos_keys, 8_000, 200_000, 0xA02), scen!("framing", sc_framing, 6_000, 100_000, 0xA03), scen!("statemachine", sc_statemachine, 4_000, 100_000, 0xA04)] },
-        Check { id: "C11", level: "exploration", rule: RULE, enumerations: vec![], scens: vec![scen!("statemachine", sc_statemachine, 30_000, 800_000, 0xB01)] },
+        Check { id: "C11", level: "exploration", rule: RULE, enumerations: vec![], scens: vec![scen!("statemachine", sc_statemachine, 30_000, 800_000, 0xB01), scen!("call-enum", sc_call_enum, 7_776, 279_936, 0xB02)] },
         Check { id: "C12", level: "fault_enumeration", rule: "boot half: every (pattern, role, subset of {local static, remote static} supplied, psk modifier index 0..9 / none / fallback, resolver lacking each primitive) is booted once - complete enumeration; a boot is non-trivial if it is not the all-keys-supplied no-modifier default; run-time half: seeded sessions with PSKs withheld at boot", enumerations: vec!["boot-matrix"], scens: vec![scen!("boot-runtime", sc_boot_runtime, 12_000, 300_000, 0xC01)] },
-        Check { id: "C14", level: "exploration", rule: RULE, enumerations: vec![], scens: vec![scen!("framing", sc_framing, 24_000, 600_000, 0xE01), scen!("interop", sc_interop, 6_000, 100_000, 0xE02)] },
+        Check { id: "C14", level: "exploration", rule: RULE, enumerations: vec![], scens: vec![scen!("framing", sc_framing, 24_000, 600_000, 0xE01), scen!("interop", sc_interop, 6_000, 100_000, 0xE02), scen!("framing-boundary", sc_framing_boundary, 10_640, 42_560, 0xE03)] },
         Check { id: "C15", level: "exploration", rule: RULE, enumerations: vec![], scens: vec![scen!("rekey", sc_rekey, 24_000, 600_000, 0xF01)] },
         Check { id: "C16", level: "exploration", rule: RULE, enumerations: vec!["stateless-threads"], scens: vec![scen!("stateless", sc_stateless, 24_000, 600_000, 0x1001)] },
         Check { id: "C17", level: "exploration", rule: RULE, enumerations: vec![], scens: vec![scen!("honest", sc_honest, 16_000, 400_000, 0x1101), scen!("fail-retry", sc_fail_retry_ledger, 8_000, 200_000, 0x1102)] },
